@@ -54,6 +54,9 @@ GNext ==
     \/ Wait(2, Rep(2)) /\ Log([op |-> "wait_intr", max |-> 2, timeout |-> 250, after |-> 30])
     \/ \E w \in {"closed_fd", "file"} : N % 5 = 0 /\ UNCHANGED vars /\ Log([op |-> "register_bad", what |-> w])
     \/ N % 7 = 0 /\ UNCHANGED vars /\ Log([op |-> "wait_huge", max |-> 1])
+    \/ /\ N % 4 = 1 /\ PickObjs # {} /\ UNCHANGED vars
+       /\ Log([op |-> "poll_reuse", timeout |-> 20,
+               entries |-> [k \in 1..Cardinality(PickObjs) |-> [o |-> S2Q(PickObjs)[k], ev |-> S2Q(PickPoll)]]])
     \/ \E to \in Timeouts, bad \in BOOLEAN :
           LET S == PickObjs
               pm == PickPoll
